@@ -147,13 +147,24 @@ macro_rules! dim {
             const N: usize = $N;
 
             pub fn g_inv(rng: &mut Rng, tier: Tier) -> Case {
-                let fam = match rng.below(14) {
+                let fam = match rng.below(17) {
                     0..=4 => 0,
                     5..=7 => 1,
                     8..=9 => 2,
                     10..=11 => 3,
-                    _ => 4,
+                    12..=13 => 4,
+                    _ => 5,
                 };
+                if fam == 5 {
+                    // what the crate's own constructors produce: identity, scale, translation,
+                    // viewport, rotation, projection-shaped, singular scale
+                    let (m, _) = gen::structured_matrix(rng, tier, N);
+                    let mut c = Case::new();
+                    c.push_r(&m);
+                    c.class = 5;
+                    c.nontrivial = true;
+                    return c;
+                }
                 if fam == 4 {
                     return super::gen_unit_columns(rng, N);
                 }
@@ -375,11 +386,11 @@ fn hist4<S: Sc>(c: &Case, k: &mut Ck<S>) {
 
 pub fn clauses() -> Vec<Clause> {
     vec![
-        clause!("invert2", EP_INV, d2::g_inv, inv2, weight = 1.0, classes = 5),
-        clause!("invert3", EP_INV, d3::g_inv, inv3, weight = 1.0, classes = 5),
-        clause!("invert4", EP_INV, d4::g_inv, inv4, weight = 1.0, classes = 5),
-        clause!("inverse_transform3", EP_XF, d3::g_inv, ixf3, weight = 0.5, classes = 5),
-        clause!("inverse_transform4", EP_XF, d4::g_inv, ixf4, weight = 0.5, classes = 5),
+        clause!("invert2", EP_INV, d2::g_inv, inv2, weight = 1.0, classes = 6),
+        clause!("invert3", EP_INV, d3::g_inv, inv3, weight = 1.0, classes = 6),
+        clause!("invert4", EP_INV, d4::g_inv, inv4, weight = 1.0, classes = 6),
+        clause!("inverse_transform3", EP_XF, d3::g_inv, ixf3, weight = 0.5, classes = 6),
+        clause!("inverse_transform4", EP_XF, d4::g_inv, ixf4, weight = 0.5, classes = 6),
         clause!("det_laws2", EP_DET, d2::g_two, det2),
         clause!("det_laws3", EP_DET, d3::g_two, det3),
         clause!("det_laws4", EP_DET, d4::g_two, det4),
@@ -657,7 +668,7 @@ pub fn native(cfg: &cgv_core::fw::RunCfg, extra: &mut cgv_core::fw::Extra) {
     native_moves(cfg, extra);
 }
 
-pub const RULE: &str = "square matrices of small rationals in three families decided by the generator: class 0 generic, class 1 exactly singular by construction (one column an integer combination of the others, sometimes rank n-2, random column order and transposition), class 2 the same with one entry perturbed by +-10^-9..10^-12 (tiny determinant, exact in Q), class 4 matrices whose columns are all rational unit vectors from an exact rotation with one column sheared towards another (orthonormal-looking but not orthogonal), class 3 a generic matrix scaled by 2^-8..2^-24 (determinant down to 2^-96, far below machine epsilon, exactly non-zero); mutation histories are 1-8 random swap_rows/swap_columns/swap_elements/replace_col/transpose_self steps with all index pairs including equal ones; non-trivial = all entries non-zero and pairwise distinct (class 0) or any constructed singular/near-singular matrix; distinct = distinct input tuples per clause.";
+pub const RULE: &str = "square matrices of small rationals in three families decided by the generator: class 0 generic, class 1 exactly singular by construction (one column an integer combination of the others, sometimes rank n-2, random column order and transposition), class 2 the same with one entry perturbed by +-10^-9..10^-12 (tiny determinant, exact in Q), class 4 matrices whose columns are all rational unit vectors from an exact rotation with one column sheared towards another (orthonormal-looking but not orthogonal), class 5 matrices of the kind the crate's own constructors produce (identity, scale, translation, scale+translation, exact rotation with or without translation, projection-shaped, singular scale), class 3 a generic matrix scaled by 2^-8..2^-24 (determinant down to 2^-96, far below machine epsilon, exactly non-zero); mutation histories are 1-8 random swap_rows/swap_columns/swap_elements/replace_col/transpose_self steps with all index pairs including equal ones; non-trivial = all entries non-zero and pairwise distinct (class 0) or any constructed singular/near-singular matrix; distinct = distinct input tuples per clause.";
 pub const ASSUME: &[&str] = &[
     "exact rational arithmetic in i128; a case that overflows i128 is re-run with intervals or counted inconclusive, never judged",
     "undefined behaviour of the unsafe helpers is judged by the Miri workload (thorough tier here, quick tier under C16), not by the value monitors",
